@@ -384,6 +384,15 @@ pub fn run(ctx: &Ctx) {
             Request { name: format!("password decrypt {} last chunk corrupted", pname), kind: Kind::PassDecrypt, input: x, keyring: String::new(), password: "p\u{e4}ss".into(), to: String::new(), from: String::new() },
             Expect { complete: None, prefix: pre, sender: None },
         ));
+        for (vname, extra) in [("one byte appended", vec![0u8]), ("newline appended", vec![b'\n']), ("512 zero bytes appended", vec![0u8; 512])] {
+            let mut x = pf.clone();
+            x.extend_from_slice(&extra);
+            let pre = refspec::decode_pass_file(&x, "p\u{e4}ss".as_bytes()).map(|d| d.body.plaintext()).unwrap_or_default();
+            reqs.push((
+                Request { name: format!("password decrypt {} {}", pname, vname), kind: Kind::PassDecrypt, input: x, keyring: String::new(), password: "p\u{e4}ss".into(), to: String::new(), from: String::new() },
+                Expect { complete: None, prefix: pre, sender: None },
+            ));
+        }
         // a key file offered to password decrypt and vice versa
         reqs.push((
             Request { name: format!("password decrypt of a key file {}", pname), kind: Kind::PassDecrypt, input: f.clone(), keyring: String::new(), password: "x".into(), to: String::new(), from: String::new() },
@@ -438,6 +447,43 @@ pub fn run(ctx: &Ctx) {
                             ctx.violation("C12:outcome-depends-on-wiring", json!({"request": reqs[ri].0.name, "wiring": format!("{:?}", wi), "this": r.0.describe(), "other": s.0.describe()}));
                         }
                     }
+                }
+            }
+        }
+    }
+    // a successful run replaces whatever the output path held before: exactly the result, no stale tail
+    {
+        let dir = w.wd.path.join("existing");
+        let _ = std::fs::create_dir_all(&dir);
+        std::fs::write(dir.join("kr.txt"), &kr_ab).unwrap();
+        let small = b"short message".to_vec();
+        std::fs::write(dir.join("small.txt"), &small).unwrap();
+        let fsmall = refspec::encode_key_file(&a.sk, &a.pk, &b.pk, &rng.arr32(), &rng.arr32(), &small, &[small.len()]).unwrap();
+        std::fs::write(dir.join("small.ktl"), &fsmall).unwrap();
+        let psmall = refspec::encode_pass_file(b"pp", &rng.arr32(), &small, &[small.len()]);
+        std::fs::write(dir.join("psmall.ktl"), &psmall).unwrap();
+        for (prior_name, prior) in [("longer existing file", rng.bytes(200_000)), ("shorter existing file", vec![7u8; 3]), ("empty existing file", vec![])] {
+            for (what, args, pw) in [
+                ("decrypt", vec!["decrypt", "small.ktl", "-t", b.name.as_str(), "-o", "OUT", "-k", "kr.txt", "--env-pass"], b.password.as_str()),
+                ("encrypt", vec!["encrypt", "small.txt", "-t", b.name.as_str(), "-f", a.name.as_str(), "-o", "OUT", "-k", "kr.txt", "--env-pass"], a.password.as_str()),
+                ("password decrypt", vec!["password", "decrypt", "psmall.ktl", "-o", "OUT", "--env-pass"], "pp"),
+                ("password encrypt", vec!["password", "encrypt", "small.txt", "-o", "OUT", "--env-pass"], "pp"),
+            ] {
+                std::fs::write(dir.join("OUT"), &prior).unwrap();
+                let o = Cmd::new(&dir, &args).pass(pw).run();
+                let out = std::fs::read(dir.join("OUT")).unwrap_or_default();
+                ctx.eval();
+                let good = o.exit == Exit::Code(0)
+                    && match what {
+                        "decrypt" | "password decrypt" => out == small,
+                        "encrypt" => matches!(refspec::decode_key_file(&out, &b.sk, &b.pk), Ok(d) if d.body.complete() && d.body.plaintext() == small) && out.len() == 132 + 32 + small.len(),
+                        _ => matches!(refspec::decode_pass_file(&out, b"pp"), Ok(d) if d.body.complete() && d.body.plaintext() == small) && out.len() == 36 + 32 + small.len(),
+                    };
+                if good {
+                    ctx.seen("successful run onto an existing output path: exactly the result");
+                    ctx.distinct(&format!("existing|{}|{}", what, prior_name));
+                } else {
+                    ctx.violation(&format!("C12:{}:exit-0-but-output-path-does-not-hold-exactly-the-result:{}", what.replace(' ', "-"), prior_name.replace(' ', "-")), json!({"command": what, "prior_state": prior_name, "exit": o.exit.describe(), "stderr": o.stderr_s(), "output_len": out.len(), "expected_plaintext_len": small.len()}));
                 }
             }
         }
@@ -556,5 +602,6 @@ pub fn run(ctx: &Ctx) {
     ctx.require("decrypt: sender named by its keyring entry", 15);
     ctx.require("decrypt: unknown sender reported with its encoding", 3);
     ctx.require("size-limited sink (-o)", 4);
+    ctx.require("successful run onto an existing output path", 12);
     ctx.require("size-limited sink (stdout)", 4);
 }
